@@ -116,6 +116,7 @@ class Unit:
         self.same_as = None
         self.digest = None
         self.native_exe = None
+        self.refused = None
 
 
 def generate_unit(u: Unit, lmax=None):
@@ -127,6 +128,11 @@ def generate_unit(u: Unit, lmax=None):
         f.write(u.world.wit_text())
     rc, txt, dt = vlib.run_cmd([DRIVER_BIN, "c", wpath, "w", u.dir] + u.opts, timeout=120)
     if rc != 0:
+        m = re.search(r"Unable to autodrop borrows in `\w+` values, please disable autodrop", txt)
+        if m and u.world.borrow_in_list() and "autodrop_borrows=yes" in u.opts:
+            # the generator declares the world unsupported: borrows that live in list memory cannot be recorded by the trampoline
+            u.refused = m.group(0)
+            return u
         u.problems.append("the C generator failed on this world (rc=%s): %s" % (rc, " ".join(txt.strip().splitlines()[:3])[:300]))
         return u
     try:
@@ -321,12 +327,38 @@ def decide(out, prop_id, tier, units, lmax, samples):
     by_role = {}
     # one replay per (type class, class, labelled direction): the first option set that shows it; further option sets are listed
     groups = {}
+    # a unit whose C element layout is not the canonical one (C10|layout|element-size) fails every value assertion that goes through
+    # that list as a consequence: report the layout failure, mention the rest
+    layout_units = {id(u) for u, p, acls, entry, members in failed if acls == "element-size"}
+    consequences = {}
+    kept = []
+    for item in failed:
+        u, p, acls = item[0], item[1], item[2]
+        if id(u) in layout_units and acls != "element-size" and prop_id == "C10":
+            consequences.setdefault(id(u), []).append(acls)
+            continue
+        kept.append(item)
+    failed = kept
     for u, p, acls, entry, members in failed:
         ld = label_direction(p) or (members[0]["direction"] if len(members) == 1 else None)
         groups.setdefault((u.world.type_class, acls, ld), []).append((u, p, entry, members))
-    for (cls, acls, _ld), items in sorted(groups.items(), key=lambda kv: (kv[0][0], kv[0][1], kv[0][2] or "")):
+    ordered = sorted(groups.items(), key=lambda kv: (kv[0][0], kv[0][1], kv[0][2] or ""))
+    # replays of different units run in parallel; those of one unit share its directory (fixed_inputs.h) and stay sequential
+    by_unit = {}
+    for key, items in ordered:
+        by_unit.setdefault(id(items[0][0]), []).append((key, items))
+
+    def replay_unit(entries):
+        res = []
+        for (cls, acls, _ld), items in entries:
+            u, p, entry, members = items[0]
+            res.append(((cls, acls, _ld), items, replay_failure(out, u, entry, members, p, prop_id, acls, u.lmax + 2)))
+        return res
+    with concurrent.futures.ThreadPoolExecutor(max_workers=JOBS) as ex:
+        replayed = [x for chunk in ex.map(replay_unit, by_unit.values()) for x in chunk]
+    replayed.sort(key=lambda x: (x[0][0], x[0][1], x[0][2] or ""))
+    for (cls, acls, _ld), items, rep in replayed:
         u, p, entry, members = items[0]
-        rep = replay_failure(out, u, entry, members, p, prop_id, acls, u.lmax + 2)
         if rep is None:
             continue
         how, ins, h, native = rep
@@ -343,13 +375,15 @@ def decide(out, prop_id, tier, units, lmax, samples):
             "option_sets_failing": osns, "list_length_bound": u.lmax, "unwind": u.lmax + 2,
             "inputs": ["0x%x" % v for v in ins], "input_layout": h.get("input_doc"),
             "failed_assertion": {"id": p["id"], "description": p["desc"], "class": acls, "file": p["file"], "function": p["fn"], "line": p["line"]},
+            "consequential_failures_not_reported_separately": sorted(set(consequences.get(id(u), []))),
             "cbmc_cmd": " ".join(runc.cbmc_cmd(u.harness_c, h["name"], u.lmax + 2, defines_of(prop_id))), "replay": how, "native": native,
             "how_to_replay": "/verif/check %s --replay <this file>" % prop_id,
         }
         path = vlib.write_replay(prop_id, "cgen_%s_%s_%s" % (direction, cls, aclass_key(acls)), payload)
-        what = ("%s of `%s` (%s; option set %s%s): cbmc refutes `%s` (%s line %s) for the inputs %s. %s"
+        what = ("%s of `%s` (%s; option set %s%s): cbmc refutes `%s` (%s line %s) for the inputs %s%s. %s"
                 % (direction, sig_text(u.world), cls, u.osn, "" if len(osns) == 1 else "; also " + ", ".join(o for o in osns if o != u.osn),
-                   p["desc"], p["fn"], p["line"], ["0x%x" % v for v in ins][:10], how))
+                   p["desc"], p["fn"], p["line"], ["0x%x" % v for v in ins][:10],
+                   ("; consequential failures in the same world: %s" % sorted(set(consequences[id(u)]))) if id(u) in consequences else "", how))
         by_role[role] = vlib.Violation(role=role, what=what, replay=path, witness={"inputs": ["0x%x" % v for v in ins]})
     out.violations += list(by_role.values())
 
@@ -399,7 +433,7 @@ def base_outcome(prop_id, tier):
     return out, lmax
 
 
-def prepare_units(out, tier, lmax, only=None):
+def prepare_units(out, tier, lmax, only=None, prop_id=None):
     worlds = wit.corpus(tier)
     osns = wit.option_sets(tier)
     only_env = os.environ.get("CGEN_ONLY")
@@ -429,6 +463,14 @@ def prepare_units(out, tier, lmax, only=None):
                 u.same_as = seen[key]
             else:
                 seen[key] = u.osn
+    refused = [u for u in units if u.refused]
+    if refused:
+        out.extra["declared_unsupported_by_generator"] = [
+            {"world": u.world.type_class, "signature": sig_text(u.world), "option_set": u.osn, "generator_message": u.refused,
+             "verdict": "holds: no bindings are generated, so no lent borrow can be left undropped"} for u in refused]
+        if prop_id == "C11":
+            out.obligations += len(refused)
+            out.discharged += len(refused)
     out.extra["corpus"] = {"worlds": len(worlds), "option_sets": osns, "world_x_option_set": len(units),
                            "distinct_bindings": len([u for u in units if u.same_as is None and u.digest]),
                            "identical_to_another_option_set": len([u for u in units if u.same_as is not None])}
@@ -443,7 +485,7 @@ def run(prop_id, tier, seed):
     t_all = time.time()
     if not build_driver(out):
         return out
-    units = prepare_units(out, tier, lmax)
+    units = prepare_units(out, tier, lmax, prop_id=prop_id)
     samples = []
     decide(out, prop_id, tier, units, lmax, samples)
     if prop_id == "C11":
